@@ -401,7 +401,7 @@ func Run(r *fw.Run) {
 	}
 	r.Bounds["configurations"] = cs
 	r.Bounds["time_budget"] = fmt.Sprintf("schedule trees are split two levels deep into subtree jobs; %v per subtree, no new subtree after %v", perJob, total)
-	r.Rule = "state = one complete execution (schedule) of a closed 2-3 goroutine driver of the real client against the real sumdb.Server/TestServer under a cooperative scheduler that owns every sync/atomic operation of package sumdb and every ClientOps call; stateless depth-first search with replay over all schedules within a bound on deviations from the default schedule (every non-default choice counts, blocking points included) and, for the small scenarios, within a preemption bound with free switches at blocking points; at two granularities: ops (ClientOps calls + blocking) and sync (every synchronisation operation). transitions = scheduling points executed. non-trivial = schedule with at least one preemption. Oracle per execution: all lookups succeed with the server's lines; each lookup key read from cache and from network at most once per client; stored head monotone, true, and finally the largest head seen; GONOSUMDB path causes no external operation; no deadlock, livelock or panic. A separate free-running -race pass looks for data races (sampling)."
+	r.Rule = "state = one complete execution (schedule) of a closed 2-3 goroutine driver (wide scenarios: 17-65 goroutines) of the real client against the real sumdb.Server/TestServer under a cooperative scheduler that owns every sync/atomic and channel operation of package sumdb and every ClientOps call; stateless depth-first search with replay over all schedules within a bound on deviations from a default schedule (every non-default choice counts, blocking points included; two defaults: run each goroutine to completion, and round robin = hand over at every scheduling point) and, for the small scenarios, within a preemption bound with free switches at blocking points; at two granularities: ops (ClientOps calls + blocking) and sync (every synchronisation operation). transitions = scheduling points executed. non-trivial = schedule with at least one preemption. Oracle per execution: all lookups succeed with the server's lines; each lookup key read from cache and from network at most once per client; stored head monotone, true, and finally the largest head seen; GONOSUMDB path causes no external operation; no deadlock, livelock or panic. A separate free-running -race pass looks for data races (sampling)."
 	r.Assume = []string{"the scheduler models sequentially consistent interleavings of the intercepted operations; unsynchronised accesses are the business of the separate race pass", "shards that hit their time limit leave part of the bounded space unexplored: reported per scenario and as exhaustive=false"}
 	RunSchedules(r, scs, cfgs, perJob, total)
 	// larger logs (many tiles per read): the default schedule (thorough: and every single deviation from it);
